@@ -187,6 +187,14 @@ func (err *wrapError) Error() string {
 }
 
 func (loc *SourceLoc) writeTo(w stringWriter, indent string) {
+	loc.writeIncludes(w, indent, make(map[*SourceFile]struct{}))
+}
+
+// Writes the location and how its file came to be included.  The includers of
+// a file which has several are listed only the first time that file is seen,
+// so that the size of the output stays in proportion to the number of files.
+func (loc *SourceLoc) writeIncludes(w stringWriter, indent string,
+	seen map[*SourceFile]struct{}) {
 	if loc.File == nil ||
 		loc.File.FullPath == "" && len(loc.File.IncludedFrom) == 0 {
 		fmt.Fprintf(w, "line %d", loc.Line)
@@ -197,14 +205,18 @@ func (loc *SourceLoc) writeTo(w stringWriter, indent string) {
 		fmt.Fprintf(w, "%s:%d\n%s    included from ",
 			loc.File.FullPath, loc.Line,
 			indent)
-		loc.File.IncludedFrom[0].writeTo(w, indent)
+		loc.File.IncludedFrom[0].writeIncludes(w, indent, seen)
+	} else if _, ok := seen[loc.File]; ok {
+		fmt.Fprintf(w, "%s:%d (included as shown above)",
+			loc.File.FullPath, loc.Line)
 	} else {
+		seen[loc.File] = struct{}{}
 		newIndent := indent + "    "
 		fmt.Fprintf(w, "%s:%d included from:",
 			loc.File.FullPath, loc.Line)
 		for i, inc := range loc.File.IncludedFrom {
 			fmt.Fprintf(w, "\n%s[%d] ", newIndent, i)
-			inc.writeTo(w, newIndent)
+			inc.writeIncludes(w, newIndent, seen)
 		}
 	}
 }
